@@ -87,6 +87,14 @@ Theorem C07_async_prefix : forall exec d0 steps s,
   (a_boss s <> BFail -> exists rest, dest_cmds steps = a_done s ++ rest).
 Proof. exact async_prefix. Qed.
 
+(* the two models of the destination side agree on successful runs: what the two-process model can end with Ok
+   is exactly what the synchronous model (Model/Sync.run_steps, used by every other theorem) computes without faults *)
+Theorem C07_async_ok_agrees_with_sync : forall fl D t0 s0 steps s,
+  areach (doer_exec fl) (ainit D steps) s -> a_boss s = BOk ->
+  let r := run_steps fl no_faults (mkR D t0 s0 [] false 0 0 None) steps in
+  a_d s = rs_d r /\ rs_errs r = [] /\ rs_srcfail r = false.
+Proof. exact async_ok_agrees_with_sync. Qed.
+
 (* a late error: the only command fails after the boss has already sent the final marker and is waiting *)
 Example C07_async_late_error :
   let d0 := world [([], NFolder)] AncOk [] in
@@ -125,3 +133,4 @@ Print Assumptions C07_only_planned_changes_unconditional.
 Print Assumptions C07_async_ok_sound.
 Print Assumptions C07_async_no_error_lost.
 Print Assumptions C07_async_prefix.
+Print Assumptions C07_async_ok_agrees_with_sync.
